@@ -89,7 +89,8 @@ def run(chk):
         chk.shape("R4", "all-prefixes", ok_, bad_, VALIDATE, repo.fn(VALIDATE, "check_child_errors").line, what="every prefix of the path must be checked", found=it)
         into_def = re.search(r"letinto_type_paths=data_type_attrs_by_kind\.iter\(\)\.filter_map\(\|\(x,kind\)\|\(\(!kind\.is_from\(\)&&!kind\.is_into_existing\(\)\)\)?\.then_some\(&x\.ty\)\)", src) or \
             "(!kind.is_from()&&!kind.is_into_existing()).then_some(&x.ty)" in src
-        chk.expect("R4", "into-counterparts", bool(into_def), VALIDATE, fv.line, "the set of counterparts whose child paths are checked must be exactly the Into (not into_existing, not From) ones")
+        wrong = re.search(r"letinto_type_paths=[^;]*?(kind\.is_from\(\)\)?\.then_some|\(!kind\.is_from\(\)\)\.then_some|filter\(\|[^|]*\|!?\w*\.?is_into_existing\(\)\))", src) is not None and not into_def
+        chk.shape("R4", "into-counterparts", bool(into_def), wrong, VALIDATE, fv.line, "the set of counterparts whose child paths are checked must be exactly the Into (not into_existing, not From) ones")
     chk.guard("R4", r4)
 
     def r5():
